@@ -1439,6 +1439,7 @@ func (c *connection) Join(conn net.Conn, id string, dial gen.NetworkDial, tail [
 					continue
 				}
 				pi.connection = nc
+				pi.fl = lib.NewFlusher(nc)
 				tail = t
 
 				goto re
